@@ -95,4 +95,5 @@ func init() {
 	register(propC12{})
 	register(propC09{})
 	register(propC04{})
+	register(propC05{})
 }
